@@ -33,6 +33,18 @@ func C18(c *core.Ctx) {
 			case 2:
 				m.Opts = &gen.Opts{}
 			}
+			// the zero instant is a special case of many time representations: make sure a message
+			// with EventTime (0,0) follows (and precedes) messages with other instants
+			if len(pool)%3 == 2 {
+				m.Sec, m.Nsec = 0, 0
+				for i := range m.Entries {
+					if i%2 == 0 {
+						m.Entries[i].Sec, m.Entries[i].Nsec = 0, 0
+					}
+				}
+			} else if m.Sec == 0 && m.Nsec == 0 {
+				m.Sec = 1700000000
+			}
 			var enc []byte
 			switch r.Intn(3) {
 			case 0:
